@@ -671,6 +671,14 @@ theorem null_error_bijection (s : SchemaD) (hs : TypesWf s) (doc : Doc) (vars : 
   simp at hp hp'
   exact ⟨e', he', suf, by rw [hp, hp'], by rw [hp']; exact hd⟩
 
+/-- **errors_at_or_below_nulls** - `null_error_bijection` under a name that says what is proved (one direction: from
+    errors to nulls; see the doc comment of `NullErrorBijection` for what the converse would need) -/
+theorem errors_at_or_below_nulls (s : SchemaD) (hs : TypesWf s) (doc : Doc) (vars : Vars) (w : World) (cf fuel : Nat)
+    (root : String) (sels : List Sel) (d : Data) (es : List Err)
+    (h : executeFields s doc vars w cf fuel root [] sels = .ok (d, es)) :
+    (es.map (·.path)).Nodup ∧ ∀ e ∈ es, ∃ e' ∈ es, ∃ suf, e.path = e'.path ++ suf ∧ Data.at d e'.path = some .null :=
+  null_error_bijection s hs doc vars w cf fuel root sels d es h
+
 /-- **root_failure_single_error**: when the ROOT selection set cannot be collected (`execute`: `data = None`), the
     response carries exactly one error, without path and without field location -/
 theorem root_failure_single_error (s : SchemaD) (doc : Doc) (vars : Vars) (w : World) (cf fuel : Nat) (root : String)
